@@ -61,6 +61,11 @@ def oracle(r, vd):
             mine = [x for x in got if x in p.items]
             if mine != p.items[:p.i]:
                 vd.add("lost-or-reordered@%s" % name)
+    if "partition" in name:
+        for cname in t.sinks:
+            for b in w.delivered[cname]:
+                if isinstance(b, (tuple, list)) and len(b) == 0:
+                    vd.add("empty-partition@%s" % name)
     for e in w.emits:
         if e.exc is not None:
             vd.add("producer-saw-exception@%s" % name)
